@@ -55,14 +55,14 @@ func gsFamilies() (fams [][]*GenomeSpec, names [][]string) {
 	hb2 := hbGenome(1, 2, 1)
 	hb2.Genes[1].En = false // gene 2->4 disabled, as after a split
 	wide := &GenomeSpec{ID: 1, Traits: []TraitSpec{{1, params8(0.1)}},
-		Nodes: []NodeSpec{{1, network.InputNeuron, 0, 1}, {2, network.InputNeuron, 0, 1}, {3, network.InputNeuron, 0, 0}, {4, network.BiasNeuron, 0, 1},
+		Nodes: []NodeSpec{{1, network.InputNeuron, 17, 1}, {2, network.InputNeuron, 17, 1}, {3, network.InputNeuron, 17, 0}, {4, network.BiasNeuron, 17, 1},
 			{5, network.OutputNeuron, xorSeed().Nodes[3].Act, 1}, {6, network.OutputNeuron, xorSeed().Nodes[3].Act, 0}},
 		Genes: []GeneSpec{{In: 1, Out: 5, W: 0.5, Innov: 1, Mut: 0.5, En: true, Trait: 1}, {In: 2, Out: 6, W: -1, Innov: 2, Mut: -1, En: true, Trait: 0},
 			{In: 4, Out: 6, W: 1e-7, Innov: 3, Mut: 0, En: false, Trait: 1}}}
 	// a sensor with a larger id than a neuron (ids ascending, sensors not first)
 	late := &GenomeSpec{ID: 1, Traits: []TraitSpec{{1, params8(0.1)}, {2, params8(0.7)}},
-		Nodes: []NodeSpec{{1, network.InputNeuron, 0, 1}, {2, network.BiasNeuron, 0, 0}, {3, network.OutputNeuron, xorSeed().Nodes[3].Act, 1},
-			{4, network.HiddenNeuron, xorSeed().Nodes[3].Act, 2}, {5, network.InputNeuron, 0, 1}},
+		Nodes: []NodeSpec{{1, network.InputNeuron, 17, 1}, {2, network.BiasNeuron, 17, 0}, {3, network.OutputNeuron, xorSeed().Nodes[3].Act, 1},
+			{4, network.HiddenNeuron, xorSeed().Nodes[3].Act, 2}, {5, network.InputNeuron, 17, 1}},
 		Genes: []GeneSpec{{In: 1, Out: 3, W: 0.5, Innov: 1, Mut: 0.5, En: true, Trait: 1}, {In: 1, Out: 4, W: -1, Innov: 2, Mut: -1, En: true, Trait: 2},
 			{In: 4, Out: 3, W: 2, Innov: 3, Mut: 2, En: true, Trait: 1}}}
 	return [][]*GenomeSpec{{xorSeed()}, {disconnectedSeed()}, {evolvedSeed()}, {hb1}, {hb2}, {wide}, {late}},
